@@ -79,6 +79,26 @@ Lemma frame_object_clear_l : forall W obj h h' r,
   object_clear as_written W obj h = (h', r) -> unchanged h h'.
 Proof. intros. apply grows_unchanged. eapply object_clear_grows; eauto. apply safe_as_written. Qed.
 
+Lemma frame_granular_remove_l : forall W obj marking selectors h h' r,
+  granular_remove as_written W obj marking selectors h = (h', r) -> unchanged h h'.
+Proof. intros. apply grows_unchanged. eapply granular_remove_grows; eauto. apply safe_as_written. Qed.
+
+Lemma frame_granular_set_l : forall W obj marking selectors h h' r,
+  granular_set as_written W obj marking selectors h = (h', r) -> unchanged h h'.
+Proof. intros. apply grows_unchanged. eapply granular_set_grows; eauto. apply safe_as_written. Qed.
+
+Lemma frame_object_set_l : forall W obj marking h h' r,
+  object_set as_written W obj marking h = (h', r) -> unchanged h h'.
+Proof. intros. apply grows_unchanged. eapply object_set_grows; eauto. apply safe_as_written. Qed.
+
+Lemma frame_api_markings_l : forall W fn obj marking selectors h h' r,
+  api_markings as_written W fn obj marking selectors h = (h', r) -> unchanged h h'.
+Proof. intros. apply grows_unchanged. eapply api_markings_grows; eauto. apply safe_as_written. Qed.
+
+Lemma frame_remove_custom_l : forall W obj h h' r,
+  remove_custom_stix as_written W obj h = (h', r) -> unchanged h h'.
+Proof. intros. apply grows_unchanged. eapply remove_custom_stix_grows; eauto. apply safe_as_written. Qed.
+
 Lemma frame_bundle_l : forall W cls args kw h h' r,
   bundle as_written W cls args kw h = (h', r) -> unchanged h h'.
 Proof. intros. apply grows_unchanged. eapply bundle_grows; eauto. apply safe_as_written. Qed.
